@@ -485,6 +485,12 @@ def unmarshalNumber : Item → Res Num
 
 def boundTy : Ty := .tuple [.number, .bool]
 
+/-! How the refinement builder's `Value.Equals` on numbers is answered is a parameter
+(`Refine.EqOracle`): the driver runs the decoder with `textOracle` (what the code does)
+and with `partialOracle` (exact, the instance the theorems are stated for). -/
+section Oracle
+variable [O : EqOracle]
+
 mutual
 def unmarshal (E : Ext) (it : Item) (ty : Ty) : Res Value :=
   match it with
@@ -702,6 +708,8 @@ def rfnLoop (E : Ext) (ty : Ty) : Nat → List Item → Builder → Res Builder
               | .unmodelled => .unmodelled))
       else rfnLoop E ty n rest b
 end
+
+end Oracle
 
 /-! ## `ImpliedType` (type_implied.go) -/
 
